@@ -41,6 +41,19 @@ var zzC11Exprs = []string{
 	"//T/descendant-or-self::*",
 	"//x/ancestor-or-self::T",
 	"//T[string-length(x)=1]",
+	// relative and absolute paths from an inner start node
+	"x",
+	"T",
+	".//x",
+	"../*",
+	"/R/T/x",
+	"*[/R/T]",
+	"//T[count(//x)>1]",
+	"/R | x",
+	// string literals are taken verbatim (whitespace runs, tabs)
+	"//T[string-length('a  b')=4]",
+	"//*[contains('p\tq', '\t')]",
+	"//T[concat(x,'  ')=concat(x,'  ')][string-length(concat(x,'  '))=3]",
 }
 
 func zzRefText(n *xmlquery.Node) string { return n.InnerText() }
@@ -59,12 +72,39 @@ func C11XPathVsDOM() {
 	zz.Assume(err == nil)
 	rootElem, err := sp.Read()
 	zz.Assume(err == nil)
-	got, err := MatchAll(rootElem.Parent, expr)
-	zz.Assert(err == nil, "expression compiles")
 	// reference side
 	ref, err := xmlquery.Parse(&zzChunkReader{data: append([]byte{}, text...), failAt: -1})
 	zz.Assume(err == nil)
-	want, err := xmlquery.QueryAll(ref, expr)
+	// start node: the document, the root element, or the root element's first element child
+	start, refStart := rootElem.Parent, ref
+	switch zz.NondetChoice("start", 3) {
+	case 1:
+		start = rootElem
+		refStart = ref.FirstChild
+		for refStart != nil && refStart.Type != xmlquery.ElementNode {
+			refStart = refStart.NextSibling
+		}
+	case 2:
+		start = rootElem.FirstChild
+		for start != nil && start.Type != ElementNode {
+			start = start.NextSibling
+		}
+		refStart = ref.FirstChild
+		for refStart != nil && refStart.Type != xmlquery.ElementNode {
+			refStart = refStart.NextSibling
+		}
+		if refStart != nil {
+			refStart = refStart.FirstChild
+			for refStart != nil && refStart.Type != xmlquery.ElementNode {
+				refStart = refStart.NextSibling
+			}
+		}
+		zz.Cover("inner-start")
+	}
+	zz.Assume(start != nil && refStart != nil)
+	got, err := MatchAll(start, expr)
+	zz.Assert(err == nil, "expression compiles")
+	want, err := xmlquery.QueryAll(refStart, expr)
 	zz.Assume(err == nil)
 	zz.Observe("counts", expr, len(got), len(want))
 	zz.Assert(len(got) == len(want), "same number of nodes selected")
